@@ -965,7 +965,14 @@ def check_interface(ctx, teneva, v, rng):
                 and [len(p) for p in phi] == ref.ranks_of(Y),
                 f'interface returned wrong structure for {kw}'):
             continue
-        for k in range(d + 1):
+        vecs = {}
+
+        def ref_vec(k):
+            if k not in vecs:
+                vecs[k] = _ref_vec(k)
+            return vecs[k]
+
+        def _ref_vec(k):
             # unnormalised reference vector at bond k
             if not ltr:
                 if k == d:
@@ -999,6 +1006,23 @@ def check_interface(ctx, teneva, v, rng):
                         TB = np.tensordot(np.abs(w), TB, axes=(0, 0))
                     R, RB = T, TB
                 nprod = float(np.prod(n[:k]))
+            return R, RB, nprod
+
+        def step_underflows(k):
+            # known finding (mechanism): the vector of one step, formed from
+            # the NORMALISED previous one, has norm ||R_k|| / ||R_prev||; below
+            # 1e-150 its squares underflow in np.linalg.norm (0 or a few bits),
+            # the division gives inf / nan and every later vector inherits it
+            steps = range(d - 1, k - 1, -1) if not ltr else range(1, k + 1)
+            for j in steps:
+                a = np.sqrt(np.sum(ref_vec(j)[0] ** 2))
+                b = np.sqrt(np.sum(ref_vec(j + 1 if not ltr else j - 1)[0] ** 2))
+                if b > 0 and a < 1e-150 * b:
+                    return True
+            return False
+
+        for k in range(d + 1):
+            R, RB, nprod = ref_vec(k)
             tol = C * (ref.nterms(Y) + sum(n)) * EPS * RB
             got = np.asarray(phi[k], dtype=LD)
             if norm is None:
@@ -1018,7 +1042,9 @@ def check_interface(ctx, teneva, v, rng):
                 # normalised step by step: parallel to R with unit norm
                 ctx.close('interface', got, R / nr,
                     (tol + tn * np.abs(R) / nr) / nr * (d + 1) + 16 * d * EPS,
-                    f'interface linalg norm {kw} bond {k}')
+                    f'interface linalg norm {kw} bond {k}',
+                    kf='interface-norm-step-underflow'
+                    if step_underflows(k) else None)
 
 
 def check_grad(ctx, teneva, v, rng):
